@@ -29,6 +29,7 @@ MANIFEST = {
              'coverage-guided routes (from_concat_items, axis-0 concat over column unions and incompatible block layouts, FrameGO setitem/extend with misaligned Series, '
              'from_items with Series, assign.bloc with array/Frame/Series values, fillna_leading and sided fills on axis 1, shift on both axes, reindex without common labels, '
              'row subsets, join_left/outer/inner, pivot_stack, Index and IndexHierarchy union/intersection/difference, hierarchy levels of mixed dtype, generator/dict/records_items constructors), '
+             'Series.fillna(Series) and Series.from_overlay(index=...) on entirely / partly missing receivers with fill labels covering some, none, a proper subset or outside labels (a cell is the value supplied under its label or still missing), '
              'FrameGO grown column by column (setitem, extend with Series/Frame, extend_items) then every row route (values, iter_array/iter_tuple/iter_series axis 1, iloc[row], transpose, to_pairs(1)) '
              'over a 43-dtype x 57-element grid and every block layout, each case evaluated inside Coq against M (result dtype + which cells survive) and S '
              '(every stored cell is the supplied cell; untouched columns keep their dtype); kernel sweeps of resolve_dtype (47x47), dtype_from_element, '
@@ -1786,6 +1787,123 @@ def ext_cases(ctx):
                     c.kind = 'api:routes-ext'
                     yield c
 
+
+# ------------------------------------------------------------------------------------------- fillna(Series) / from_overlay on entirely missing receivers
+def _receiver(kind):
+    if kind == 'float64-allnan':
+        a = np.full(4, np.nan)
+    elif kind == 'float64-partial':
+        a = np.array([1.5, np.nan, np.nan, np.nan])
+    elif kind == 'object-allnone':
+        a = np.empty(4, dtype=object)
+    elif kind == 'object-partial':
+        a = _obj_array(['keep', None, None, None])
+    elif kind == 'M8[D]-allnat':
+        a = np.full(4, np.datetime64('NaT'), dtype='M8[D]')
+    elif kind == 'm8[s]-allnat':
+        a = np.full(4, np.timedelta64('NaT'), dtype='m8[s]')
+    else:
+        raise KeyError(kind)
+    a.flags.writeable = False
+    return a
+
+
+RECEIVERS = ['float64-allnan', 'float64-partial', 'object-allnone', 'object-partial', 'M8[D]-allnat', 'm8[s]-allnat']
+FILL_LABELS = {'some': [1, 3], 'none': [], 'proper-subset': [0, 1, 2], 'one-outside': [2, 9], 'all-outside': [7, 8]}
+FILLNA_FIXED = ['int8', 'int64', 'uint8', 'uint64', 'bool', '<U1', '<U4', 'S4', 'm8[D]/full', 'm8[ns]/full', 'float32', 'M8[ns]/full']
+
+
+def fillna_series_case(ctx, rk, fd, lk):
+    '''Series.fillna(Series): only cells that are missing in the receiver AND labelled in the fill Series are written; every other cell
+    stays what it was (still missing).  dtype: resolve_dtype(fill dtype, receiver dtype) when something is written, unchanged otherwise.'''
+    sf = _sf()
+    r = _receiver(rk)
+    labels = FILL_LABELS[lk]
+    fa = host(fd)[:len(labels)]
+    if excluded_pair(r.dtype.kind, fa.dtype.kind):
+        return None
+    desc = {'receiver': rk, 'receiver_values': rp(r.tolist() if r.dtype.kind not in 'Mm' else [str(x) for x in r]), 'receiver_index': [0, 1, 2, 3],
+            'fill_dtype': fd, 'fill_values': rp(HOSTS[fd][:len(labels)]), 'fill_index': labels, 'call': 'receiver.fillna(fill_series)'}
+    try:
+        out = sf.Series(r).fillna(sf.Series(fa, index=labels))
+        na = _na_mask(r)
+        written = [i for i in range(4) if na[i] and i in labels]
+        cells = []
+        for i in range(4):
+            cells += from_arr(fa, [labels.index(i)]) if i in written else from_arr(r, [i])
+        plan = p_pair(fa.dtype, r.dtype) if written else p_keep(r.dtype)
+        cols = [Col(plan, cells, out.values, keep=None if written else r.dtype)]
+        sources = [A(r), A(fa[[labels.index(i) for i in written]])] if written else []
+    except Exception as e:  # noqa
+        cols, sources = e, []
+    return mk_case(ctx, 'api:fillna-partial', 'fillna_series', desc, cols, sources, tags={'labels': lk, 'receiver': rk}, nontrivial=bool(labels))
+
+
+def overlay_case(ctx, d0, d1, d2, l2k):
+    '''Series.from_overlay((c0, c1, c2), index=...) where c0 shares no label with the index: every cell is the value of the first
+    container that has the label, or still missing (composite path: S only).'''
+    sf = _sf()
+    idx = [0, 1, 2, 3]
+    c0 = host(d0)[:2]
+    c0 = na_free(c0)
+    c1, c2 = host(d1)[:2], host(d2)
+    l1, l2 = [1, 3], {'c2-some': [0, 1, 2], 'c2-few': [0, 1]}[l2k]
+    c2 = c2[:len(l2)]
+    kinds = [c0.dtype.kind, c1.dtype.kind, c2.dtype.kind]
+    if any(excluded_pair(x, y) for x in kinds for y in kinds):
+        return None
+    k = c0.dtype.kind
+    na = float('nan') if k in 'iufc' else (np.datetime64('NaT') if k in 'Mm' else None)
+    desc = {'index': idx, 'c0': f'{d0} labels [10, 11] (no label in the index)', 'c1': f'{d1} {rp(HOSTS[d1][:2])} labels {l1}',
+            'c2': f'{d2} {rp(HOSTS[d2][:len(l2)])} labels {l2}', 'call': 'sf.Series.from_overlay((c0, c1, c2), index=index)'}
+    tags = {'finding': 'C07-overlay-timedelta'} if k == 'm' else {}
+    na_arr = np.full(4, np.datetime64('NaT'), dtype=c0.dtype) if k == 'M' else None
+    try:
+        out = sf.Series.from_overlay((sf.Series(c0, index=[10, 11]), sf.Series(c1, index=l1), sf.Series(c2, index=l2)), index=idx)
+        cells, used1, used2 = [], [], []
+        for i in idx:
+            if i in l1 and not isna(c1[l1.index(i)]):
+                cells += from_arr(c1, [l1.index(i)])
+                used1.append(l1.index(i))
+            elif i in l2 and not isna(c2[l2.index(i)]):
+                cells += from_arr(c2, [l2.index(i)])
+                used2.append(l2.index(i))
+            elif i in l1:
+                cells += from_arr(c1, [l1.index(i)])      # a missing value of c1 under a label c2 does not have / also misses
+                used1.append(l1.index(i))
+            elif i in l2:
+                cells += from_arr(c2, [l2.index(i)])
+                used2.append(l2.index(i))
+            else:
+                cells += from_arr(na_arr, [0]) if k == 'M' else from_elem(na)
+        cols = [Col(None, cells, out.values)]
+        # the first container reindexed onto the index is an ARRAY of its missing marker: a datetime64 one goes through astype(object) later
+        sources = [A(c1[used1]), A(c2[used2]), A(na_arr) if k == 'M' else E(na)]
+    except Exception as e:  # noqa
+        cols, sources = e, []
+    return mk_case(ctx, 'api:fillna-partial', 'from_overlay_disjoint_first', desc, cols, sources, tags=tags)
+
+
+def fillna_partial_cases(ctx):
+    for rk in RECEIVERS:
+        for fd in FILLNA_FIXED:
+            for lk in FILL_LABELS:
+                c = fillna_series_case(ctx, rk, fd, lk)
+                if c is not None:
+                    yield c
+    grid = [(rk, fd, lk) for rk in RECEIVERS for fd in HOSTS_FRAME for lk in FILL_LABELS]
+    for rk, fd, lk in (grid if ctx.tier == 'thorough' else ctx.rng.sample(grid, ctx.n(30, 0))):
+        c = fillna_series_case(ctx, rk, fd, lk)
+        if c is not None:
+            yield c
+    firsts = ['int64', 'bool', '<U1', 'float64', 'M8[D]/full', 'm8[D]/full', 'object']
+    ogrid = [(d0, d1, d2, l2k) for d0 in firsts for d1 in HOSTS_FRAME for d2 in ('int8', 'bool', '<U4', 'float64', 'm8[D]/full', 'uint64') for l2k in ('c2-some', 'c2-few')]
+    fixed = [(d0, d1, 'int8', 'c2-few') for d0 in ('int64', '<U1', 'bool') for d1 in ('int8', 'int64', 'bool', '<U1', 'S4', 'uint8', 'm8[D]/full')]
+    for d0, d1, d2, l2k in fixed + (ogrid if ctx.tier == 'thorough' else ctx.rng.sample(ogrid, ctx.n(40, 0))):
+        c = overlay_case(ctx, d0, d1, d2, l2k)
+        if c is not None:
+            yield c
+
 # ------------------------------------------------------------------------------------------- FrameGO grown column by column
 def p_grown(ds):
     return f'(PGrown {dt(ds[0])} {lit.lst([dt(d) for d in ds[1:]])})'
@@ -2175,6 +2293,7 @@ def cases(ctx):
     yield from frame_elem_cases(ctx)
     yield from frame_arr_cases(ctx)
     yield from grown_cases(ctx)
+    yield from fillna_partial_cases(ctx)
     yield from ext_cases(ctx)
     yield from pivot_cases(ctx)
     yield from assign_frame_cases(ctx)
